@@ -57,29 +57,6 @@ func nontrivial(c caseSpec, ref refResult) bool {
 	return ref.MatchedRecord || c.Bearer != nil || (c.Req == kPut && refSticky(c.Mask))
 }
 
-// isSearchCIDClass: the decision of the reference came from (or passed over) a
-// SEARCH record filtered by $Object:containerID.
-func isSearchCIDClass(c caseSpec, ref refResult) bool {
-	if c.Req != kSearch || !ref.EACLConsulted {
-		return false
-	}
-	tb := c.Stored
-	if ref.UsedBearer {
-		tb = &c.Bearer.Table
-	}
-	for _, r := range tb.Records {
-		if r.Op != kSearch {
-			continue
-		}
-		for _, f := range r.Filters {
-			if f.From == "obj" && f.Key == hCID {
-				return true
-			}
-		}
-	}
-	return false
-}
-
 func TestC28Decision(t *testing.T) {
 	rec := ev.New("C28", "decision")
 	defer rec.Flush()
@@ -98,9 +75,6 @@ func TestC28Decision(t *testing.T) {
 		got := s.composed(c, req)
 		rec.Label("sut-stage-" + got.Stage)
 		if got.Allow == ref.Allow {
-			return
-		}
-		if isSearchCIDClass(c, ref) && rec.Known(fpSearchCID) {
 			return
 		}
 		if isBinXHdrClass(c) && got.Stage != "bearer-verify" && rec.Known(fpBinXHdr) {
@@ -146,6 +120,54 @@ func TestC28BasicBits(t *testing.T) {
 			want := role == "container" || !refSticky(mask) || objOwner == requester
 			if got != want {
 				t.Fatalf("StickyBitCheck(mask=%08x role=%s requester=%d objOwner=%d) = %v, want %v", mask, role, requester, objOwner, got, want)
+			}
+		}
+	})
+}
+
+// TestC28Server sends the same generated cases through the real object.Server
+// (real ACL service and checker behind it, fake storage handlers) and compares
+// the response status with the reference: ACCESS_DENIED iff the reference
+// denies. For GET/HEAD whose decision needs the stored object's header the
+// fake handler has no object to return, so only "allowed by the reference =>
+// not denied before the handler" is asserted (the second stage is covered by
+// TestC28Decision).
+func TestC28Server(t *testing.T) {
+	rec := ev.New("C28", "server")
+	defer rec.Flush()
+	s := newServerSUT()
+	rapid.Check(t, func(t *rapid.T) {
+		c := genCase(t)
+		ref := refDecide(c)
+		twoStage := (c.Req == kGet || c.Req == kHead) && ref.NeedsObject
+		labels := append(caseLabels(c, ref), map[bool]string{true: "srv-needs-stored-header", false: "srv-decided-on-request"}[twoStage])
+		rec.Case(nontrivial(c, ref), c.String(), labels...)
+
+		s.configure(c)
+		got, err := s.serve(buildRequest(c))
+		if err != nil {
+			t.Fatalf("server returned a transport error: %v\ncase: %s", err, c)
+		}
+		denied := got.Code == codeAccessDenied
+		rec.Label(fmt.Sprintf("srv-code-%d", got.Code))
+		if denied && len(got.Reached) > 0 {
+			t.Fatalf("PROPERTY VIOLATED: ACCESS_DENIED returned but backend %v was reached\ncase: %s", got.Reached, c)
+		}
+		switch {
+		case ref.Allow:
+			if denied {
+				t.Fatalf("over-restrictive (reference allows, server denies): status %d %q\ncase: %s\nreference decided by %s (role %s, op %s)",
+					got.Code, got.Message, c, ref.Why, ref.Role, ref.Op)
+			}
+			if len(got.Reached) == 0 {
+				t.Fatalf("reference allows, server did not deny but no backend was reached: status %d %q\ncase: %s", got.Code, got.Message, c)
+			}
+		case twoStage:
+			rec.Label("srv-deny-needs-stored-header-unasserted")
+		default:
+			if !denied {
+				t.Fatalf("PROPERTY VIOLATED: request served although the rules deny it: status %d %q reached %v\ncase: %s\nreference: deny by %s (role %s, op %s, bearer table used=%v)",
+					got.Code, got.Message, got.Reached, c, ref.Why, ref.Role, ref.Op, ref.UsedBearer)
 			}
 		}
 	})
